@@ -15,6 +15,7 @@ import (
 type propDef struct {
 	ID    string
 	Deep  bool // needs dependency bodies
+	Refs  bool // wants the upstream reference packages
 	Rules []ruleDef
 }
 
@@ -27,6 +28,15 @@ var registry = map[string]*propDef{}
 
 func register(id string, deep bool, rules ...ruleDef) {
 	registry[id] = &propDef{ID: id, Deep: deep, Rules: rules}
+}
+
+// wantRefs marks properties whose rules compare the vendored code with its upstream sibling.
+func wantRefs(ids ...string) {
+	for _, id := range ids {
+		if p := registry[id]; p != nil {
+			p.Refs = true
+		}
+	}
 }
 
 func configsFor(tier string, deep bool, repo string) []LoadCfg {
@@ -128,8 +138,17 @@ func main() {
 	for _, id := range ids {
 		results[id] = &runResult{Prop: id, Start: start, Extra: map[string]any{}}
 	}
+	wantRefs := false
+	for _, id := range ids {
+		if registry[id].Refs {
+			wantRefs = true
+		}
+	}
 	for _, cfg := range configsFor(*tier, deep, *repo) {
 		cfg.Overlay = ov
+		if wantRefs {
+			cfg.Refs = upstreamRefs()
+		}
 		c, err := Load(cfg)
 		if err != nil {
 			for _, id := range ids {
